@@ -1304,5 +1304,7 @@ _scale("C06", "scale_reader", None, 16, 320, 640)
 _scale("C08", "scale_chunker", None, 16, 320, 640)
 _scale("C17", "scale_chunker", None, 16, 320, 640)
 _scale("C17", "scale_codec", ["A", "S", "G", "R"], 4, 160, 320, 4)
+# counts of 2^16 ... 2^25 bytes (offers of 8 MiB and more), hard errors / EOF / EINTR bursts after a small delivery
+_scale("C17", "scale_readn", None, 8, 160, 320, 4)
 # > 1024 borrowed pieces through the Encoder / Decoder with no drain, megabyte streams: round trip of drained ++ finish()
 _scale("C01", "scale_codec", ["A", "R"], 4, 160, 320, 4)
